@@ -75,6 +75,19 @@ def run_login(run, rng, pv, order, threshold, terminal, server_id, auth,
                   for i, s in enumerate(x for x in order if x[0] == 'P')}
     chat_sizes = []
     chat_gate = []
+    own_modes = ('explicit', 'implicit', 'implicit')
+    deferred, encryption_answered = [], []
+    # (answers may be deferred only if the server does not wait for them
+    # before the encryption step: no set-compression after a plugin request
+    # and before 'E', where the script collects outstanding answers)
+    before_e = list(order[:order.index('E')]) if 'E' in order else []
+    first_p = next((i for i, x in enumerate(before_e) if x[0] == 'P'), None)
+    defer_answers = user_handler and first_p is not None and \
+        'C' not in before_e[first_p:] and rng.random() < 0.7
+    judged_session = []
+
+    def user_data(mid):
+        return (b'handled', b'', b'h' * 300, b'\x00')[mid % 4]
     w = {'pv': pv, 'order': list(order), 'threshold': threshold,
          'terminal': terminal[0], 'server_id': server_id, 'auth': auth,
          'user_handler': user_handler, 'codec': type(codec).__name__}
@@ -306,12 +319,38 @@ def run_login(run, rng, pv, order, threshold, terminal, server_id, auth,
             from minecraft.networking.packets import clientbound, serverbound
 
             def own(packet):
-                conn.write_packet(serverbound.login.PluginResponsePacket(
-                    message_id=packet.message_id, successful=True,
-                    data=b'handled'))
+                mode = own_modes[packet.message_id % len(own_modes)]
+                data = user_data(packet.message_id)
+                if mode == 'explicit':
+                    ans = serverbound.login.PluginResponsePacket(
+                        message_id=packet.message_id, successful=True,
+                        data=data)
+                else:
+                    # 'successful' left to the packet: any bytes object, also
+                    # an empty one, is a successful answer
+                    ans = serverbound.login.PluginResponsePacket(
+                        message_id=packet.message_id, data=data)
+                if defer_answers and judged_session and \
+                        not encryption_answered:
+                    deferred.append(ans)
+                else:
+                    conn.write_packet(ans)
                 raise IgnorePacket
             conn.register_packet_listener(
                 own, clientbound.login.PluginRequestPacket, early=True)
+
+            def flush_deferred(_packet):
+                # an answer computed elsewhere arrives (is queued) just while
+                # the encryption response is being written
+                if not judged_session:
+                    return
+                encryption_answered.append(1)
+                while deferred:
+                    conn.write_packet(deferred.pop(0))
+                    run.count('plugin_answers_queued_during_encryption_reply')
+            conn.register_packet_listener(
+                flush_deferred, serverbound.login.EncryptionResponsePacket,
+                outgoing=True, early=rng.random() < 0.5)
         if terminal[0] == 'success':
             from minecraft.networking.packets import clientbound, serverbound
 
@@ -363,6 +402,7 @@ def run_login(run, rng, pv, order, threshold, terminal, server_id, auth,
         if negotiated:
             conn.allowed_proto_versions = {pv, other_pv}
             run.count('logins.negotiated')
+        judged_session.append(1)
         conn.connect()
         if not pc.wait_idle(conn, 25.0):
             return 'threads alive: ' + pc.dump_threads()
@@ -441,7 +481,8 @@ def run_login(run, rng, pv, order, threshold, terminal, server_id, auth,
                 continue
             v = got[0]
             if user_handler:
-                if not v['successful'] or v['data'] != b'handled':
+                run.seen('user_answer_payloads', len(user_data(mid)))
+                if not v['successful'] or v['data'] != user_data(mid):
                     bad('login/plugin-user-answer', 'the user handler\'s answer'
                         ' was not what reached the wire', answer=v)
             elif v['successful'] or v.get('data') or \
@@ -580,4 +621,5 @@ def run(run):
     run.require('disconnects', 10)
     run.require('encryptions', 10)
     run.require('plugin_requests', 10)
+    run.require('plugin_answers_queued_during_encryption_reply', 3)
     run.require('orders', 20)
